@@ -246,6 +246,11 @@ class PathCtx:
                 pass
         if status == 'unknown':
             status, model, backend = second_opinion(self.pc, goal, self.timeout_ms)
+        if status == 'unknown':
+            # last resort before giving up: the same back ends with four times the budget (a loaded machine must not
+            # turn a discharged obligation into an undecided one)
+            status, model, backend = second_opinion(self.pc, goal, min(4 * self.timeout_ms, 120000))
+            backend = backend + '-retry' if status != 'unknown' else backend
         cross = None
         if status == 'proved' and backend == 'z3' and CROSSCHECK['per_clause'] > 0:
             # thorough tier: an independent solver re-checks a sample of the obligations z3 discharged
